@@ -4,7 +4,8 @@
    N; outcome Ok / Err / Panic); elliptic-curve arithmetic, garbling and the
    CO oblivious transfer are opaque functions there. *)
 From Coq Require Import NArith List Bool Arith.
-From Mpc Require Import Gen.Consts Base.Codec IO.Sha2pcCodec IO.Sha2pcProof IO.RunC18.
+From Mpc Require Import Gen.Consts Base.Label Base.Codec Circuit.Circuit Circuit.Garble
+     IO.Sha2pcCodec IO.Sha2pcProof IO.Sha2pcInstProof IO.RunC18.
 Import ListNotations.
 Open Scope N_scope.
 
@@ -67,29 +68,49 @@ Proof.
 Qed.
 Print Assumptions C18_reject_magic.
 
-(* wrong total length is an error: for EVERY byte string given to the Round3
-   decoder; for Round2 when the curve-name chunk is in canonical form.  The
-   full statement (every decoder, every byte string) is false: see
-   C18_reject_length_refuted. *)
-Theorem C18_reject_length_partial :
-  (forall data, length data <> round3PayloadLen -> DecodeRound3 data = Err) /\
-  (forall decompress c sid8 rest, length sid8 = 8%nat ->
-     length rest <> (evaluatorCiphertextCount * byteLen c + evaluatorChoiceSignBytes)%nat ->
-     DecodeRound2 decompress c (magicRound2 ++ sid8 ++ write_chunk (curve_name c) ++ rest) = Err).
-Proof. exact (conj reject_length_r3 reject_length_r2_canonical). Qed.
-Print Assumptions C18_reject_length_partial.
+(* wrong total length is an error: for EVERY byte string, every curve, all
+   five decoders (since the fixes 832c61e / ad7f790 / 19366c8 in /repo; the
+   pre-fix counterexamples are kept as regression records in
+   IO/Sha2pcProof.v: r1_trailing_record, r2_nonminimal_record,
+   gs_trailing_record, es_short_record) *)
+Theorem C18_reject_length : forall decompress c bs,
+  (length bs <> (16 + 2 * byteLen c)%nat -> DecodeRound1 c bs = Err) /\
+  (length bs <> (48 + 256 * byteLen c)%nat -> DecodeRound2 decompress c bs = Err) /\
+  (length bs <> round3PayloadLen -> DecodeRound3 bs = Err) /\
+  (length bs <> (18 + 5 * byteLen c)%nat -> DecodeGarblerSession c bs = Err) /\
+  (length bs <> es_len c -> DecodeEvaluatorSession c bs = Err).
+Proof. exact reject_length. Qed.
+Print Assumptions C18_reject_length.
 
-(* REFUTED for the faithful model (and replayed on the implementation by the
-   harness): Round1 and both session decoders accept trailing bytes, Round2
-   accepts a non-minimal uvarint, the evaluator-session decoder accepts a
-   truncated choice-bit field (single bytes.Reader.Read). *)
-Theorem C18_reject_length_refuted :
-  (exists c data m, DecodeRound1 c data = Ok m /\ length data <> (16 + 2 * byteLen c)%nat) /\
-  (exists dec c data m, DecodeRound2 dec c data = Ok m /\ length data <> (48 + 256 * byteLen c)%nat) /\
-  (exists c data s, DecodeGarblerSession c data = Ok s /\ length data <> (18 + 5 * byteLen c)%nat) /\
-  (exists c data s, DecodeEvaluatorSession c data = Ok s /\ (length data < es_len c)%nat).
-Proof. exact reject_length_refuted. Qed.
-Print Assumptions C18_reject_length_refuted.
+(* every strict prefix (indeed every byte string of another length) of the
+   encoding of EVERY well-formed message/state is an error *)
+Theorem C18_reject_strict_prefix : forall decompress c,
+  (forall m b p, wf_r1 c m -> EncodeRound1 c m = Ok b -> length p <> length b -> DecodeRound1 c p = Err) /\
+  (forall m b p, wf_r2 decompress c m -> EncodeRound2 c m = Ok b -> length p <> length b ->
+                 DecodeRound2 decompress c p = Err) /\
+  (forall m b p, wf_r3 m -> EncodeRound3 m = Ok b -> length p <> length b -> DecodeRound3 p = Err) /\
+  (forall s b p, wf_gs c s -> EncodeGarblerSession c s = Ok b -> length p <> length b ->
+                 DecodeGarblerSession c p = Err) /\
+  (forall s b p, wf_es c s -> EncodeEvaluatorSession c s = Ok b -> length p <> length b ->
+                 DecodeEvaluatorSession c p = Err).
+Proof. exact reject_strict_prefix. Qed.
+Print Assumptions C18_reject_strict_prefix.
+
+(* canonical encodings: for EVERY string of bytes (values below 256) that
+   Round1 / Round3 / GarblerSession / EvaluatorSession decoding accepts, the
+   decoded value re-encodes to exactly those bytes (and is well-formed).
+   (Round2: only the length part, C18_reject_length; its canonicity needs a
+   soundness hypothesis on point decompression and is not proved.) *)
+Theorem C18_canonical : forall c bs, is_bytes bs ->
+  (forall m, DecodeRound1 c bs = Ok m -> EncodeRound1 c m = Ok bs /\ wf_r1 c m) /\
+  (forall m, DecodeRound3 bs = Ok m -> EncodeRound3 m = Ok bs) /\
+  (forall s, DecodeGarblerSession c bs = Ok s -> EncodeGarblerSession c s = Ok bs /\ wf_gs c s) /\
+  (forall s, DecodeEvaluatorSession c bs = Ok s -> EncodeEvaluatorSession c s = Ok bs /\ wf_es c s).
+Proof.
+  exact (fun c bs B => conj (fun m => r1_canonical c bs m B) (conj (fun m => r3_canonical bs m B)
+          (conj (fun s => gs_canonical c bs s B) (fun s => es_canonical c bs s B)))).
+Qed.
+Print Assumptions C18_canonical.
 
 (* the encoding of EVERY well-formed message/state of one curve is an error
    for the decoder of any other curve (Round3 carries no curve) *)
@@ -180,15 +201,11 @@ Theorem C18_resume :
 Proof. exact resume_same. Qed.
 Print Assumptions C18_resume.
 
-(* ---- C18_protocol_correct (PARTIAL: relative to three named hypotheses).
-   Given (garbled_eval_correct) the statement of C01 for the embedded circuit:
-   evaluating the garbled tables on the labels selected by the input bits
-   yields output labels that the hints decode to [circ_eval] of the inputs;
-   (co_ot_correct) the CO OT behaves as the ideal OT: decryption returns
-   exactly the label chosen by each bit (C06); (circuit_computes_sha256xor)
-   the embedded circuit computes SHA-256(a xor b) — NOT proved, checked by the
-   harness against crypto/sha256 — then for all 32-byte a, b, all randomness and
-   all restart points the evaluator's round-4 output is [sha256xor a b]. *)
+(* ---- C18_protocol_correct, general form (relative to named hypotheses about
+   the opaque cryptographic functions; they are discharged for the C01
+   garbling model and the C06 Chou-Orlandi model in C18_protocol_correct_inst
+   below).  For all 32-byte a, b, all randomness and ALL restart points the
+   evaluator's round-4 output is [sha256xor a b]. *)
 Theorem C18_protocol_correct :
   forall RND c gen_sender read_sid build_choices read_key garble_circ encrypt_co decrypt_co eval_circ decompress,
   (forall rng, let '(a, (ax, ay), (ix, iy)) := gen_sender rng in Forall (fits (byteLen c)) [a; ax; ay; ix; iy]) ->
@@ -214,13 +231,16 @@ Theorem C18_protocol_correct :
        eval_circ key (map (fun p => pick2 (fst p) (snd p)) (combine gin xa))
                      (map (fun p => pick2 (fst p) (snd p)) (combine ein xb)) tables = Ok outl /\
        decode_outputs outw outl = Ok (circ_eval (xa ++ xb))) ->
-  (forall rng key, exists gin ein outw tables, garble_circ rng key = Ok (gin, ein, outw, tables)) ->
+  (forall rng key, exists gin ein outw tables,
+     garble_circ rng key = Ok (gin, ein, outw, tables) /\
+     length ein = hashInputBitCount /\ length outw = outputHintCount) ->
   (* co_ot_correct *)
   (forall rng1 rng2 sid sid' bits ein,
      let '(a, (ax, ay), (ix, iy)) := gen_sender rng1 in
-     length bits = hashInputBitCount ->
+     length bits = hashInputBitCount -> length ein = length bits ->
      exists scalars points cts,
        build_choices rng2 ax ay bits = Ok (scalars, points) /\
+       length scalars = length bits /\
        encrypt_co (mkGS sid (curve_name c) a ax ay ix iy) points ein = Ok cts /\
        decrypt_co (mkES sid' (curve_name c) ax ay scalars bits) cts
        = Ok (map (fun p => pick2 (fst p) (snd p)) (combine ein bits))) ->
@@ -237,3 +257,68 @@ Theorem C18_protocol_correct :
     = Ok (sha256xor a b).
 Proof. exact protocol_sha256. Qed.
 Print Assumptions C18_protocol_correct.
+
+(* ---- C18_protocol_correct_inst.  The cryptographic parts instantiated with
+   the models the other properties are about: garbling / evaluation = the C01
+   model (Circuit/Garble.v) run on the embedded circuit [circ] (any block
+   function per key, any label stream), with the flat Round3 table slab cut
+   into per-gate rows by gate kind; OT = the Chou-Orlandi model of C06
+   (OT/Co.v) over any group on integer pairs satisfying the five laws that
+   OT.CoProof.co_correct needs.  garbled_eval_correct is discharged by
+   Circuit.GarbleProof (C01), co_ot_correct by OT.CoProof.co_correct (C06).
+   Remaining hypotheses: the embedded circuit is well-formed with 256+256
+   inputs and 256 outputs (ParseMPCLC and init() of sha2pc/params.go check
+   this at start-up), and circuit_computes_sha256xor — the embedded circuit
+   computes SHA-256(a xor b) — which is NOT proved and is checked by the
+   harness against crypto/sha256 on every run.  Conclusion: for all 32-byte
+   a, b, all curves, all randomness, the uninterrupted four-round run makes
+   the evaluator output [sha256xor a b].  (Restart points are covered by
+   C18_resume under its representation hypotheses.) *)
+Theorem C18_protocol_correct_inst :
+  forall circ : circuit,
+  wf circ = true ->
+  ninputs circ = (hashInputBitCount + hashInputBitCount)%nat ->
+  noutputs circ = outputHintCount ->
+  forall (RND : Type) (pi_of_key : list N -> N -> N) (rnd_labels : RND -> nat -> N) (scratch : list wire)
+         (read_key : RND -> list N) (read_sid : RND -> N)
+         (gadd : N * N -> N * N -> N * N) (gneg : N * N -> N * N) (gzero : N * N)
+         (smul : N -> N * N -> N * N) (Gen : N * N) (kdf : N * N -> N -> N),
+  (forall P Q R, gadd (gadd P Q) R = gadd P (gadd Q R)) ->
+  (forall P, gadd P gzero = P) ->
+  (forall P, gadd P (gneg P) = gzero) ->
+  (forall a P Q, smul a (gadd P Q) = gadd (smul a P) (smul a Q)) ->
+  (forall a b P, smul a (smul b P) = smul b (smul a P)) ->
+  forall (sender_scalar : RND -> N) (receiver_scalar : RND -> nat -> N) (c : curve)
+         (decompress : curve -> N -> bool -> option (N * N)) (sha256xor : list N -> list N -> list N),
+  (* circuit_computes_sha256xor *)
+  (forall a b, length a = 32%nat -> length b = 32%nat ->
+     eval_plain circ (bytesToBitsLittle a ++ bytesToBitsLittle b) = bytesToBitsLittle (sha256xor a b)) ->
+  (forall a b, Forall (fun x => x < 256) (sha256xor a b)) ->
+  forall (rg1 re2 rg3 : RND) (a b : list N),
+  length a = 32%nat -> length b = 32%nat ->
+  run_protocol RND c (i_gen_sender RND gneg smul Gen sender_scalar) read_sid
+    (i_build_choices RND gadd smul Gen receiver_scalar) read_key
+    (i_garble circ RND pi_of_key rnd_labels scratch) (i_encrypt gadd smul kdf)
+    (i_decrypt smul kdf) (i_eval circ pi_of_key) decompress 0 0 0 0 false false false rg1 re2 rg3 a b
+  = Ok (sha256xor a b).
+Proof. exact protocol_sha256_inst. Qed.
+Print Assumptions C18_protocol_correct_inst.
+
+(* the hypotheses of C18_resume are satisfiable on every curve *)
+Theorem C18_resume_hypotheses_inhabited : forall c,
+  (forall rng, let '(a, (ax, ay), (ix, iy)) := nv_gen_sender rng in Forall (fits (byteLen c)) [a; ax; ay; ix; iy]) /\
+  (forall rng, nv_read_sid rng < 2 ^ 64) /\
+  (forall rng ax ay bits scalars points,
+     nv_build_choices rng ax ay bits = Ok (scalars, points) ->
+     length scalars = evaluatorCiphertextCount /\ Forall (fits (byteLen c)) scalars /\
+     length points = evaluatorCiphertextCount /\ Forall (point_ok dec_any c) points) /\
+  (forall rng, length (nv_read_key rng) = garblingKeyBytes) /\
+  (forall rng key gin ein outw tables,
+     nv_garble rng key = Ok (gin, ein, outw, tables) ->
+     length gin = hashInputBitCount /\ Forall (fits2 16) gin /\
+     length outw = outputHintCount /\ Forall (fits2 16) outw /\
+     length tables = garbledTableLabelCount /\ Forall (fits 16) tables) /\
+  (forall st pts ein cts,
+     nv_encrypt st pts ein = Ok cts -> length cts = evaluatorCiphertextCount /\ Forall (fits2 16) cts).
+Proof. exact resume_hypotheses_inhabited. Qed.
+Print Assumptions C18_resume_hypotheses_inhabited.
